@@ -20,6 +20,10 @@ CHECKS = {
    text="For the 7 normalizer classes with symbolic parameters and data, on every branch of the real code (lmbda~0, ~2, sign of lmbda, sign of x): public denormalize(normalize(x))==x through the range checks, NaN/out-of-range semantics, strict monotonicity, reported derivative == symbolic derivative of the code's own normalize term, (kernel) log-likelihood == maximum-likelihood definition for 2 (thorough: 3) data, and apply_mean_norm_trend == trend+denormalize(mean+raw) with remove_trend_norm_mean as its inverse for constant and callable (uninterpreted) mean/trend.",
    note="exp/log/pow uninterpreted with sound axioms; inside the library's np.isclose band around lmbda=0/2 the parameter is taken to be exactly that value; optimiser in fit() not executed (maximisation outside the claim); number of data bounded.",
    technique="symbolic execution of the real normalizer code + symbolic differentiation pass + SMT", ref="DESIGN.md §4 C18"),
+ "C19": dict(engine="E1-symnp",
+   text="The real array_* transformation code is executed on a symbolic input value, mean, variance and bounds; the solver decides the push-forward identity F_target(T(x)) = Phi((x-mean)/sigma) (equivalently T = Q_target∘Phi) for log-normal, uniform, arcsine and U-quadratic, that the default bounds are exactly those fixed by the mean/variance-preserving moment conditions, the Zinn-Harvey identity Phi(±W)=erf(|z|/sqrt 2) with mirror-image connectivity reversal, exact sample moments of force-moments for n<=3 (thorough 4), array_boxcox∘BoxCox.normalize = id, and for discrete transforms that the output is the class value of the half-open threshold interval containing x (arithmetic midpoints, equal-probability thresholds, custom thresholds; 2-4 classes).",
+   note="erf/erfinv/sin/exp/log/pow uninterpreted with sound axioms; Phi(z):=(1+erf(z/sqrt 2))/2; oracle = closed-form CDFs/quantiles and moments of the named distributions; for 'equal' thresholds with n>2 the numeric value of erfinv is checked concretely to 1e-12; Field.transform wrappers (transform/field.py) are not covered here.",
+   technique="symbolic execution of the real transformation code + SMT push-forward identities", ref="DESIGN.md §4 C19"),
 }
 
 PENDING_REASON = "check not built yet in this session (work in progress; see DESIGN.md §7 build order)"
